@@ -7,6 +7,8 @@ Import ListNotations.
 Require Import PyBase Solver SolverFacts SolverF SolveAll Eval EvalFacts EvalFacts2 EvalFacts3 EvalF EvalExamples.
 Require Import EvalSolveAll EvalSolveSpan EvalFortran EvalFortranFrame EvalExamples2 EvalDeps.
 Require Import SolveAllSpan.
+Require Import EvalHistory EvalExamples3.
+Require Fsic.Linker.Linker Fsic.Eval.EvalLinker.
 Require Fsic.Fortran.FSem Fsic.Fortran.FSolve.
 Require Fsic.Solver.SolveAllFacts.
 Open Scope Z_scope.
@@ -306,6 +308,32 @@ Section C04_eval.
     solve_mon (length (status s)) prog d o span start end_ s = solve_P prog d o span start end_ s.
   Proof. exact (solve_monitored_eq num add sub mul div pow neg absf ltb leb eqb zero fun1 fun2 flagged isfin L locate prog d o span start end_ s). Qed.
 
+  (* HISTORIES: any number of solve_t calls on one instance, each with its own options and period, whatever each returns or
+     raises (the caller may catch and go on): a value cell differs afterwards only if some call, at a FEASIBLE period p,
+     could assign it — (y, p + k) for a left-hand term, or with THAT call's offset the endogenous cells of p —; status /
+     iterations differ only at feasible periods some call addressed; nothing leaks from one call into the next *)
+  Theorem C04_history_frame (prog : program num) d calls s :
+    wf_vals (length (status s)) (vals_of s) ->
+    (prog_lags num prog <= lags d)%nat -> (prog_leads num prog <= leads d)%nat ->
+    let n := length (status s) in
+    let s' := run_history num add sub mul div pow neg absf ltb leb eqb zero fun1 fun2 flagged isfin prog d calls s in
+    agree_outside (fun i q => exists o t, In (o, t) calls /\ exists p, py_pos n t = Some p /\ feasible d n p = true /\
+                       ((exists k, In (i, k) (prog_lhs num prog) /\ Z.of_nat q = Z.of_nat p + k) \/
+                        (offset o <> 0 /\ In i (endo d) /\ q = p)))
+                  (vals_of s) (vals_of s') /\
+    length (status s') = n /\ length (iters s') = length (iters s) /\
+    (forall q, (forall o t p, In (o, t) calls -> py_pos n t = Some p -> feasible d n p = true -> q <> p) ->
+               nth_error (status s') q = nth_error (status s) q /\ nth_error (iters s') q = nth_error (iters s) q).
+  Proof. exact (history_frame num add sub mul div pow neg absf ltb leb eqb zero fun1 fun2 flagged isfin prog d calls s). Qed.
+
+  (* ... in particular rows that no statement assigns and the instance does not list as endogenous survive ANY history *)
+  Theorem C04_history_unassigned_rows_unchanged (prog : program num) d calls s i :
+    wf_vals (length (status s)) (vals_of s) ->
+    (prog_lags num prog <= lags d)%nat -> (prog_leads num prog <= leads d)%nat ->
+    (forall k, ~ In (i, k) (prog_lhs num prog)) -> ~ In i (endo d) ->
+    nth i (vals_of (run_history num add sub mul div pow neg absf ltb leb eqb zero fun1 fun2 flagged isfin prog d calls s)) [] = nth i (vals_of s) [].
+  Proof. exact (history_unassigned_rows_unchanged num add sub mul div pow neg absf ltb leb eqb zero fun1 fun2 flagged isfin prog d calls s i). Qed.
+
   (* ---- the LABEL entry point solve_period(label) ---- *)
   Notation solve_period_P := (solve_period_P num add sub mul div pow neg absf ltb leb eqb zero fun1 fun2 flagged isfin L locate).
   Notation solve_period_mon := (solve_period_mon num add sub mul div pow neg absf ltb leb eqb zero fun1 fun2 flagged isfin L locate).
@@ -367,6 +395,44 @@ Section C04_eval.
                nth_error (status s') q = nth_error (status s) q /\ nth_error (iters s') q = nth_error (iters s) q).
   Proof. exact (solve_every_span_default_range_frame num add sub mul div pow neg absf ltb leb eqb zero fun1 fun2 flagged isfin k prog d o span s). Qed.
 End C04_eval.
+
+(* ============ Part B1b: linkers over parser-built submodels (model Linker/Linker.v) — the VALUES frame of linker.solve_t ============ *)
+Section C04_linker.
+  Variable num : Type.
+  Variables (add sub mul div pow : num -> num -> num) (neg absf : num -> num).
+  Variables (ltb leb eqb : num -> num -> bool).
+  Variable zero : num.
+  Variable fun1 : nat -> num -> num.
+  Variable fun2 : nat -> num -> num -> num.
+  Variable flagged : list num -> num -> bool.
+
+  (* for EVERY submodel evaluation oracle that writes only inside W id (array lengths kept) and `pass` linker hooks:
+     linker.solve_t(t) leaves the core's values alone and changes submodel `id` only inside W id; descriptors are kept *)
+  Theorem C04_linker_solve_t_values_frame (sev : Linker.sid -> hook num) (pre ebefore eafter post : Linker.lhook num) (t : Z)
+          (W : Linker.sid -> list nat -> nat -> nat -> Prop) :
+    (forall id sh, hook_frame sh (W id sh) (sev id) t) ->
+    EvalLinker.hook_id num pre -> EvalLinker.hook_id num ebefore -> EvalLinker.hook_id num eafter -> EvalLinker.hook_id num post ->
+    forall sel o s i id c,
+    nth_error (Linker.l_subs s) i = Some (id, c) ->
+    vals_of (Linker.c_st (Linker.l_core (fst (Linker.linker_solve_t_M num sub absf ltb zero sev pre ebefore eafter post sel o t s))))
+      = vals_of (Linker.c_st (Linker.l_core s)) /\
+    exists c', nth_error (Linker.l_subs (fst (Linker.linker_solve_t_M num sub absf ltb zero sev pre ebefore eafter post sel o t s))) i = Some (id, c') /\
+               Linker.c_desc c' = Linker.c_desc c /\
+               agree_outside (W id (shape (vals_of (Linker.c_st c)))) (vals_of (Linker.c_st c)) (vals_of (Linker.c_st c')).
+  Proof. exact (EvalLinker.linker_solve_t_cells num sub absf ltb zero sev pre ebefore eafter post t W). Qed.
+
+  (* parser-built submodels: each changes only the cells its OWN equations assign for index t (as NumPy serves that index:
+     the linker has no feasibility guard of its own), every selection of submodels, every option set *)
+  Theorem C04_linker_parsed_solve_t_cells (progs : Linker.sid -> program num) sel o t s i id c :
+    nth_error (Linker.l_subs s) i = Some (id, c) ->
+    let s' := fst (Linker.linker_solve_t_M num sub absf ltb zero
+                     (fun j => ev_of num add sub mul div pow neg absf ltb leb eqb zero fun1 fun2 flagged (progs j))
+                     (EvalLinker.lpass num) (EvalLinker.lpass num) (EvalLinker.lpass num) (EvalLinker.lpass num) sel o t s) in
+    vals_of (Linker.c_st (Linker.l_core s')) = vals_of (Linker.c_st (Linker.l_core s)) /\
+    exists c', nth_error (Linker.l_subs s') i = Some (id, c') /\ Linker.c_desc c' = Linker.c_desc c /\
+               agree_outside (written num (progs id) (shape (vals_of (Linker.c_st c))) t) (vals_of (Linker.c_st c)) (vals_of (Linker.c_st c')).
+  Proof. exact (EvalLinker.linker_parsed_solve_t_cells num add sub mul div pow neg absf ltb leb eqb zero fun1 fun2 flagged progs sel o t s i id c). Qed.
+End C04_linker.
 
 (* ============ Part B2: the second engine — FortranEngine.solve_t over the compiled template (model Fortran/FSolve.v) ============ *)
 Section C04_fortran.
@@ -571,6 +637,12 @@ Print Assumptions C04_no_event_no_change_or_finding3.
 Print Assumptions C04_no_event_no_change.
 Print Assumptions C04_solve_seq_frame_feasible.
 Print Assumptions C04_solve_default_range_frame.
+Print Assumptions C04_history_frame.
+Print Assumptions C04_history_unassigned_rows_unchanged.
+Print Assumptions C04_linker_solve_t_values_frame.
+Print Assumptions C04_linker_parsed_solve_t_cells.
+Print Assumptions ex_history_run.
+Print Assumptions exL_hyps.
 Print Assumptions C04_solve_period_touches_only_its_period.
 Print Assumptions C04_solve_period_bad_label_no_change.
 Print Assumptions C04_solve_period_monitored_eq.
